@@ -45,7 +45,7 @@ def make_doc(n, parents, crits, abstract_bits, nest, children_first, other_names
     names = OTHER_NAMES if other_names else HEADER_NAMES
     apid = names[3]
     pts = list(header_ptypes()) + [PType("SEL_T", "Integer", IntEnc(2)), PType("P6_T", "Integer", IntEnc(6)), PType("M_T", "Integer", IntEnc(8))]
-    prs = list(header_params(names)) + [Param("SEL", "SEL_T"), Param("P6", "P6_T")] + [Param(f"M{i}", "M_T") for i in range(1, n)] + [Param("NM", "M_T")]
+    prs = list(header_params(names)) + [Param("SEL", "SEL_T"), Param("P6", "P6_T")] + [Param(f"M{i}", "M_T") for i in range(1, n)] + [Param("NM", "M_T"), Param("TAILM", "M_T"), Param("LM", "M_T"), Param("RM", "M_T")]
     cnames = [root_name] + [f"C{i}" for i in range(1, n)]
     conts = []
     for i in range(n):
@@ -59,6 +59,15 @@ def make_doc(n, parents, crits, abstract_bits, nest, children_first, other_names
                 entries = [("c", "NEST")] + entries
             if n >= 3 and i == n - 1 and i != 1:
                 entries = entries + [("c", "NEST")]
+        elif nest == 3:
+            # the same nested container referenced twice within ONE entry list (its parameters are decoded twice: their values are
+            # not judged, but every other parameter and the cursor are)
+            if n >= 2 and i == 1:
+                entries = [("c", "NEST")] + entries + [("c", "NEST"), ("p", "TAILM")]
+        elif nest == 4:
+            # diamond: node 1 nests LEFT and RIGHT, which both nest NEST
+            if n >= 2 and i == 1:
+                entries = [("c", "LEFT")] + entries + [("c", "RIGHT"), ("p", "TAILM")]
         elif nest == 2:
             # nested container inside the root, between header and SEL
             if i == 0:
@@ -70,6 +79,9 @@ def make_doc(n, parents, crits, abstract_bits, nest, children_first, other_names
                                                                                   and isinstance(crit[0], Cmp))))
     if nest:
         conts.append(Container("NEST", (("p", "NM"),)))
+    if nest == 4:
+        conts.append(Container("LEFT", (("c", "NEST"), ("p", "LM"))))
+        conts.append(Container("RIGHT", (("c", "NEST"), ("p", "RM"))))
     if children_first:
         conts = list(reversed(conts))
     return Doc(tuple(pts), tuple(prs), tuple(conts), root=root_name)
@@ -79,7 +91,7 @@ def packets():
     out = []
     for apid in range(4):
         for sel in range(4):
-            payload = format(sel, "02b") + "101010" + "".join(format(0x10 * (k + 1) + sel, "08b") for k in range(6))
+            payload = format(sel, "02b") + "101010" + "".join(format(0x10 * (k + 1) + sel, "08b") for k in range(9))
             out.append(docs.packet_for(apid, payload, seqcount=apid * 4 + sel))
     return out
 
@@ -191,9 +203,11 @@ def all_specs(tier):
         for parents in parent_vectors(n):
             for crits in itertools.product(range(N_CRIT), repeat=n - 1):
                 for ab in range(1 << n):
-                    for nest in (0, 1, 2):
-                        if nest == 1 and n < 2:
+                    for nest in (0, 1, 2, 3, 4):
+                        if nest in (1, 3, 4) and n < 2:
                             continue
+                        if nest in (3, 4) and (n == 4 or ab not in (0, 1, (1 << n) - 1)):
+                            continue  # the double-reference variants on a reduced set of abstract-flag assignments
                         for cf in (False, True):
                             for other in (False, True):
                                 if n == 4 and (other or (cf and nest)):
